@@ -295,11 +295,12 @@ pub fn c02_node(ctx: &Ctx) {
 // C03 node level: replay of captured data datagrams k housekeeping rounds later
 // =====================================================================================
 
-pub fn c03_node_case(ctx: &Ctx, k: u32, newer_between: bool) -> Vec<Viol> {
+pub fn c03_node_case(ctx: &Ctx, k: u32, newer_between: bool, receiver_is_initiator: bool) -> Vec<Viol> {
     ctx.eval();
-    let case = json!({"kind": "c03-node", "k": k, "newer_between": newer_between});
+    let case = json!({"kind": "c03-node", "k": k, "newer_between": newer_between, "receiver_is_initiator": receiver_is_initiator});
     let mut out = vec![];
-    let mut lab = Lab::build(RState::EstResponder);
+    // the receiving node is either the responder of the connection or its initiator (whose handshake object lingers)
+    let mut lab = Lab::build(if receiver_is_initiator { RState::EstLinger } else { RState::EstResponder });
     let f = |n: u8| eth_frame([2, 0, 0, 0, 0, 1], [2, 0, 0, 0, 0, 2], None, &[n; 40]);
     lab.sim.take_iface(T);
     let before = lab.sim.wire_log.len();
@@ -342,11 +343,13 @@ pub fn c03_node_case(ctx: &Ctx, k: u32, newer_between: bool) -> Vec<Viol> {
 pub fn c03_node(ctx: &Ctx) {
     for k in 0..=5 {
         for nb in [false, true] {
-            let v = c03_node_case(ctx, k, nb);
-            ctx.report(v);
+            for ini in [false, true] {
+                let v = c03_node_case(ctx, k, nb, ini);
+                ctx.report(v);
+            }
         }
     }
-    ctx.subspace("node level: data datagram replayed k = 0..=5 housekeeping rounds after first delivery (with/without newer traffic)", 12, true);
+    ctx.subspace("node level: data datagram replayed k = 0..=5 housekeeping rounds after first delivery (with/without newer traffic, receiver = responder / lingering initiator)", 24, true);
 }
 
 // =====================================================================================
@@ -361,6 +364,9 @@ pub struct C05Node {
     pub adversarial_seconds: u16,
     /// who dials whom: bit k of edges[i] = node i is configured with peer k
     pub edges: [u8; 3],
+    /// one-way outages: (from node, to node, start second, length in seconds) - everything in that direction is lost
+    #[serde(default)]
+    pub outages: Vec<(u8, u8, u16, u16)>,
 }
 
 pub fn c05_node_case(ctx: &Ctx, c: &C05Node) -> Vec<Viol> {
@@ -382,9 +388,20 @@ pub fn c05_node_case(ctx: &Ctx, c: &C05Node) -> Vec<Viol> {
     let act2 = active.clone();
     let faults = std::rc::Rc::new(std::cell::Cell::new(0u32));
     let f2 = faults.clone();
-    sim.policy = Some(Box::new(move |_d| {
+    let addrs: Vec<SocketAddr> = (0..n).map(|i| sim.addr(i)).collect();
+    let outages: Vec<(SocketAddr, SocketAddr, i64, i64)> = c
+        .outages
+        .iter()
+        .map(|(a, b, s, l)| (addrs[*a as usize % n], addrs[*b as usize % n], crate::sim::T0 + (*s % 200) as i64, crate::sim::T0 + (*s % 200) as i64 + (*l % 200) as i64))
+        .collect();
+    let has_outage = !outages.is_empty();
+    sim.policy = Some(Box::new(move |d| {
         if !act2.get() {
             return vec![0];
+        }
+        if outages.iter().any(|(a, b, s, e)| d.src == *a && d.dst == *b && d.sent_at >= *s && d.sent_at < *e) {
+            f2.set(f2.get() + 1);
+            return vec![];
         }
         let k = counter.get();
         counter.set(k + 1);
@@ -427,7 +444,9 @@ pub fn c05_node_case(ctx: &Ctx, c: &C05Node) -> Vec<Viol> {
         sim.configure_peer(*i, a);
     }
     sim.settle();
-    sim.run((c.adversarial_seconds % 200) as i64);
+    // the adversarial phase lasts until the last outage window is over
+    let adv = if has_outage { 400 } else { (c.adversarial_seconds % 200) as i64 };
+    sim.run(adv);
     // reliable phase: the recovery bound counts from the moment the last delayed datagram has been delivered
     active.set(false);
     let last_delayed = sim.delayed.iter().map(|d| d.deliver_at).max().unwrap_or(sim.now).max(sim.now);
@@ -482,9 +501,17 @@ pub fn c05_node(ctx: &Ctx) {
     ctx.proptest(
         "pt-c05-node",
         n,
-        || (2u8..=3, proptest::collection::vec(any::<u8>(), 1..200), any::<u16>(), any::<[u8; 3]>()),
-        |(nodes, fates, secs, edges)| {
-            let c = C05Node { nodes: *nodes, fates: fates.clone(), adversarial_seconds: *secs, edges: *edges };
+        || {
+            (
+                2u8..=3,
+                proptest::collection::vec(prop_oneof![3 => Just(0u8), 1 => any::<u8>()], 1..200),
+                any::<u16>(),
+                any::<[u8; 3]>(),
+                proptest::collection::vec((0u8..3, 0u8..3, 0u16..150, prop_oneof![1u16..30, 100u16..200]), 0..3),
+            )
+        },
+        |(nodes, fates, secs, edges, outages)| {
+            let c = C05Node { nodes: *nodes, fates: fates.clone(), adversarial_seconds: *secs, edges: *edges, outages: outages.clone() };
             let v = c05_node_case(ctx, &c);
             if fates.len() < 8 {
                 ctx.sample("adversarial-network", || serde_json::to_value(&c).unwrap());
@@ -492,7 +519,22 @@ pub fn c05_node(ctx: &Ctx) {
             v
         },
     );
-    ctx.subspace("node level: 2-3 nodes with configured peers, per-datagram drop/duplicate/delay<=90 s/reorder for <=200 s, then reliable", n as u64, false);
+    ctx.subspace("node level: 2-3 nodes with configured peers, per-datagram drop/duplicate/delay<=90 s/reorder and one-way outages of up to 200 s, then reliable", n as u64, false);
+    // directed: a one-way outage longer than the handshake retry horizon, in each direction, starting at each of a few offsets
+    let mut directed = vec![];
+    for (a, b) in [(0u8, 1u8), (1, 0)] {
+        for start in [0u16, 1, 2, 5] {
+            for len in [60u16, 119, 125, 180] {
+                directed.push(C05Node { nodes: 2, fates: vec![0], adversarial_seconds: 0, edges: [0, 0, 0], outages: vec![(a, b, start, len)] });
+            }
+        }
+    }
+    let nd = directed.len() as u64;
+    ctx.par_items(&directed, |_, c| {
+        let v = c05_node_case(ctx, c);
+        ctx.report(v);
+    });
+    ctx.subspace("node level: one-way outage during the handshake (both directions x 4 start offsets x lengths 60/119/125/180 s), then reliable", nd, true);
 }
 
 // =====================================================================================
@@ -867,7 +909,7 @@ pub fn replay(ctx: &Ctx, case: &Value) {
     let v = match case["kind"].as_str() {
         Some("c01-node") => serde_json::from_value::<C01Node>(case["case"].clone()).map(|c| c01_node_case(ctx, &c)).unwrap_or_default(),
         Some("c02-node") => serde_json::from_value::<C02Node>(case["case"].clone()).map(|c| c02_node_case(ctx, &c)).unwrap_or_default(),
-        Some("c03-node") => c03_node_case(ctx, case["k"].as_u64().unwrap_or(0) as u32, case["newer_between"].as_bool().unwrap_or(false)),
+        Some("c03-node") => c03_node_case(ctx, case["k"].as_u64().unwrap_or(0) as u32, case["newer_between"].as_bool().unwrap_or(false), case["receiver_is_initiator"].as_bool().unwrap_or(false)),
         Some("c05-node") => serde_json::from_value::<C05Node>(case["case"].clone()).map(|c| c05_node_case(ctx, &c)).unwrap_or_default(),
         Some("c11-node") => serde_json::from_value::<C11Node>(case["case"].clone()).map(|c| c11_node_case(ctx, &c)).unwrap_or_default(),
         Some("c11-stats") => c11_stats_file(ctx),
